@@ -50,6 +50,17 @@ pub fn oracle(frame: &[u8], suffix: &[u8]) -> Result<(), (String, String)> {
             return Err(("c13:empty-not-empty".into(), format!("payload length {} decodes to {} {}", l, o.message.chars().take(60).collect::<String>(), which)));
         }
     }
+    // the same frame looked up through the scanner: delivered from offset 0 with the same bytes whatever follows
+    for (buf, which) in [(&frame.to_vec(), "without suffix"), (&ext, "with suffix")] {
+        let (c, f) = next_msg_frame(buf);
+        match f {
+            Some(m) if c == l + 6 && m.frame_data() == frame && m.message_number() == expect_number => {}
+            Some(m) => {
+                return Err(("c13:scanner-frame-depends-on-suffix".into(), format!("scanner {}: consumed {} and delivered a {}-byte frame (expected the {}-byte frame at offset 0)", which, c, m.frame_len(), l + 6)));
+            }
+            None => return Err(("c13:scanner-frame-depends-on-suffix".into(), format!("scanner {}: valid frame at offset 0 not delivered (consumed {})", which, c))),
+        }
+    }
     if a != b {
         let what = if a.number != b.number {
             "message_number"
@@ -75,7 +86,7 @@ pub fn run(ctx: &Ctx, replay: Option<&J>) -> CheckResult {
     let rule = "valid frames of every payload length L=0..=1023 (random payloads, random reserved bits) plus every golden frame (typed decode) x \
         suffixes {1,2,3 bytes, many random bytes, another valid frame, a copy of the frame itself, a damaged copy, >1029 random bytes, 0xD3 runs, 0x00/0xFF runs}; oracle: (frame_len, data_len, payload, \
         frame bytes, crc, message_number, Debug of decoded message) identical with and without suffix, message_number == first 12 payload bits \
-        iff L>=2 else None (then decode is Empty). non-trivial = non-empty suffix; distinct = hash(frame, suffix)"
+        iff L>=2 else None (then decode is Empty); next_msg_frame delivers the same frame from offset 0 with and without the suffix. non-trivial = non-empty suffix; distinct = hash(frame, suffix)"
         .to_string();
     let assumptions = vec!["frames are built by the harness' own framing code with its own CRC".to_string()];
     if let Some(case) = replay {
